@@ -40,7 +40,8 @@ def run_vrp(case):
     """case: customers [(x, demand, tws, twe, svc, req)] on a line, vehicles, capacity, seed, mode"""
     import solvor.vrp as vrp
     from random import Random
-    xs = [0] + [c[0] for c in case["customers"]]
+    dx = case.get("depot_x", 0)
+    xs = [dx] + [c[0] for c in case["customers"]]
     custs = [{"req": c[5], "tws": c[2], "twe": c[3] if c[3] is not None else 1000000, "svc": c[4], "dem": c[1]} for c in case["customers"]]
     dist = [[abs(a - b) for b in xs] for a in xs]
     events = []
@@ -61,15 +62,22 @@ def run_vrp(case):
     try:
         customers = [(i + 1, float(c[0]), 0.0, float(c[1]), float(c[2]), float(c[3]) if c[3] is not None else float("inf"), float(c[4]), c[5])
                      for i, c in enumerate(case["customers"])]
+        if "prev_depot_x" in case:
+            # the same customers were solved from another depot earlier in this process (a depot-location study): nothing of that may linger
+            try:
+                vrp.solve_vrptw(customers, case["vehicles"], depot=(float(case["prev_depot_x"]), 0.0), vehicle_capacity=float(case["capacity"]), max_iter=0, seed=0)
+            except Exception:  # noqa: BLE001
+                pass
+            del events[:]            # the earlier call is not part of this trace
         if case["mode"] == "solve":
-            r = vrp.solve_vrptw(customers, case["vehicles"], vehicle_capacity=float(case["capacity"]), max_iter=case.get("max_iter", 60),
+            r = vrp.solve_vrptw(customers, case["vehicles"], depot=(float(dx), 0.0), vehicle_capacity=float(case["capacity"]), max_iter=case.get("max_iter", 60),
                                 max_no_improve=case.get("max_iter", 60), seed=case["seed"])
             st = _proj_state(r.solution)
             o = float(r.objective)
             events.append({"e": "result", "status": r.status.name, "state": st, "obj": int(round(o)), "exact": abs(o - round(o)) < 1e-6 and st["exact"]})
         else:
             # driver-chosen operator sequence (e.g. from a TLC behaviour of Vrp.tla) on an explicit state
-            cl = [vrp.Customer(0, 0.0, 0.0)] + [vrp.Customer(c[0], c[1], c[2], c[3], c[4], c[5], c[6], c[7]) for c in customers]
+            cl = [vrp.Customer(0, float(dx), 0.0)] + [vrp.Customer(c[0], c[1], c[2], c[3], c[4], c[5], c[6], c[7]) for c in customers]
             state = vrp.VRPState.from_problem(cl, [vrp.Vehicle(i, float(case["capacity"])) for i in range(case["vehicles"])])
             rng = Random(case["seed"])
             for name in case["sequence"]:
@@ -130,6 +138,10 @@ def gen_vrp(rng, mode="solve"):
         nsync += req == 2
         customers.append([x, rng.randint(0, 4), tws, twe, rng.randint(0, 3), req])
     case = {"customers": customers, "vehicles": rng.choice([1, 2, 2, 3, 3, 4]), "capacity": rng.choice([5, 8, 100]), "seed": rng.randint(0, 10 ** 6), "mode": mode}
+    if rng.random() < 0.4:
+        case["depot_x"] = rng.randint(-15, 15)
+        if rng.random() < 0.6:
+            case["prev_depot_x"] = rng.choice([0, case["depot_x"] + rng.choice([-9, 7, 20])])
     if mode == "sequence":
         names = list(OPS)
         seq = ["greedy_insertion"]
